@@ -15,7 +15,7 @@ ID = 'C09'
 LEVEL = 'model_checking'
 
 SYMS = ('AB', 'CD', 'EF')
-CONSTS = {'XAB': 0x71, 'ABX': 0x72, 'AB_1': 0x73, '_AB': 0x74, 'ABCD': 0x75}
+CONSTS = {'XAB': 0x71, 'ABX': 0x72, 'AB_1': 0x73, '_AB': 0x74, 'ABCD': 0x75, 'ab': 0x76}      # ab: not the symbol AB
 SHADOW = {'AB': 0x61, 'CD': 0x62, 'EF': 0x63}      # constants with the name of a symbol (visible before its #define)
 
 # value alternatives, as token lists
@@ -25,8 +25,8 @@ VALUES = {
     'EF': [None, ['7'], ['AB'], ['ABX']],
 }
 SOURCES = ('isa', 'cli', 'define')
-USE_TOKENS = [['AB'], ['CD'], ['EF'], ['XAB'], ['ABX'], ['AB_1'], ['_AB'], ['ABCD'], ['AB', '*', '2'], ['AB', '+', 'CD']]
-USE_PAIRS_Q = [(0, 3), (0, 7), (3, 0), (1, 4), (2, 5), (8, 6), (9, 1), (0, 0), (7, 7), (4, 2), (6, 8), (5, 9)]
+USE_TOKENS = [['AB'], ['CD'], ['EF'], ['XAB'], ['ABX'], ['AB_1'], ['_AB'], ['ABCD'], ['AB', '*', '2'], ['AB', '+', 'CD'], ['ab']]
+USE_PAIRS_Q = [(0, 3), (0, 7), (3, 0), (1, 4), (2, 5), (8, 6), (9, 1), (0, 0), (7, 7), (4, 2), (6, 8), (5, 9), (0, 10), (10, 1)]
 
 
 class Reject(Exception):
@@ -66,16 +66,17 @@ def meta(tier):
         'rule': 'symbol tables: AB in 8 values x CD in 5 x EF in 4 (undefined, literal, chain, diamond, self, 2-/3-cycles, identifiers '
                 'containing a symbol name) x definition source of each defined symbol in {ISA, -D, #define} x use-line token pairs '
                 '(written once before and once after the #define block, as `.byte t1, t2`, through `T = t1` and as the operand of `ldi b, t2`); plus every '
-                'double definition across and within sources; non-trivial = table with a chain/diamond/cycle or a use line that '
+                'double definition across and within sources; replacement texts with backslash escapes (5 strings x 3 sources x chains of 0..2 intermediate '
+                'symbols) used in .cstr / .byte; non-trivial = table with a chain/diamond/cycle or a use line that '
                 'mixes a symbol with an identifier containing its name; states = distinct (table, sources) pairs',
         'bounds': {'symbols': SYMS, 'values': {k: [None if v is None else ' '.join(v) for v in vs] for k, vs in VALUES.items()},
                    'containing_identifiers': CONSTS, 'use_tokens': [' '.join(t) for t in USE_TOKENS],
-                   'use_pairs': 'the 12 listed pairs' if q else 'all 100 pairs', 'sources': SOURCES},
+                   'use_pairs': 'the 14 listed pairs' if q else 'all 121 pairs', 'sources': SOURCES},
         'assumptions': ['substitution is textual (a replacement `CD+EF` inside `AB*2` gives `6+7*2`), as the statement says "replacement text"',
                         'symbols with an empty replacement are used only for double-definition cases (a data list with an empty item '
                         'is outside the statement)'],
         'floors': {'evaluations': 1000, 'nontrivial': 100, 'statuses': ['OK', 'REJECT'],
-                   'clauses': ['substituted', 'cycle-rejected', 'double-definition-rejected']},
+                   'clauses': ['substituted', 'cycle-rejected', 'double-definition-rejected', 'string-replacement']},
         'nshards': 64,
     }
 
@@ -129,7 +130,7 @@ def build(table, sources, pair):
 
 def interesting(table, pair):
     chain = any(v is not None and any(t in SYMS for t in v) for v in table.values())
-    mix = {tuple(USE_TOKENS[pair[0]]), tuple(USE_TOKENS[pair[1]])} & {('XAB',), ('ABX',), ('AB_1',), ('_AB',), ('ABCD',)}
+    mix = {tuple(USE_TOKENS[pair[0]]), tuple(USE_TOKENS[pair[1]])} & {('XAB',), ('ABX',), ('AB_1',), ('_AB',), ('ABCD',), ('ab',)}
     return chain or bool(mix)
 
 
@@ -181,6 +182,38 @@ def shard(acc, tier, idx, n):
             if msg:
                 acc.violation([case], spec, msg, [out])
             acc.judge(clause='double-definition-rejected', nontrivial_key=('dd', s1, s2, v1, v2))
+    string_replacements(acc, idx, n, ctr)
+
+
+# replacement texts that carry backslashes (string escapes): copied verbatim, whatever the source and through chains
+STR_VALUES = [('"a\\\\b"', [0x61, 0x5C, 0x62]), ('"\\x41B"', [0x41, 0x42]), ('"p\\n"', [0x70, 0x0A]), ('"\\\\t\\t"', [0x5C, 0x74, 0x09]),
+              ('"\\\\1"', [0x5C, 0x31])]
+
+
+def string_replacements(acc, idx, n, ctr0):
+    ctr = ctr0
+    for (text, data), src, chain in itertools.product(STR_VALUES, SOURCES, (0, 1, 2)):
+        ctr += 1
+        if ctr % n != idx:
+            continue
+        names = ['ST', 'MID', 'OUT'][:chain + 1]
+        table = {names[0]: text}
+        for a, b in zip(names[1:], names):
+            table[a] = b
+        isa_syms = [{'name': k, 'value': v} for k, v in table.items()] if src == 'isa' else []
+        cli = [f'{k}={v}' for k, v in table.items()] if src == 'cli' else []
+        lines = [f'#define {k} {v}' for k, v in table.items()] if src == 'define' else []
+        lines += [f'    .cstr {names[-1]}', f'    .byte {names[-1]}', '    .byte $EE']
+        case = Case(probe_isa(16, 'little', symbols=isa_syms or None), '\n'.join(lines) + '\n', defines=cli)
+        out = acc.run(case)
+        acc.transition()
+        spec = {'expect': 'OK', 'image_hex': bytes(data + [0] + data + [0xEE]).hex(), 'replacement_text': text, 'source': src, 'chain': chain}
+        msg = judge_expect(spec, [out])
+        if msg:
+            acc.violation([case], spec, f'replacement text {text} from {src} through {chain} intermediate symbols: {msg}', [out])
+        acc.judge(clause='string-replacement', nontrivial_key=('str', text, src, chain))
+        acc.sample({'program': case.files['main.asm'], 'cli_defines': cli, 'isa_symbols': isa_syms, 'reference': spec})
+    return ctr
 
 
 def judge(spec, outcomes):
